@@ -114,6 +114,7 @@ let eval_stream (stream : string) (case : string) (impl : string) : verdict =
   | "prefix" -> let (model, fails) = Parse_o.eval_prefix case impl in { model; fails }
   | "prefixsafe" -> { model = impl; fails = (if String.contains impl 'X' then [("C01", "-")] else []) }
   | "grammar" -> let (model, fails) = Parse_o.eval_grammar case impl in { model; fails }
+  | "segpair" -> let (model, fails) = Conn_o.eval_segpair case impl in { model; fails }
   | "readloop" -> let (model, fails) = Conn_o.eval_readloop case impl in { model; fails }
   | "conn05" -> let (model, fails) = Conn_o.eval ["C05"] case impl in { model; fails }
   | "conn07" -> let (model, fails) = Conn_o.eval ["C07"] case impl in { model; fails }
@@ -122,6 +123,10 @@ let eval_stream (stream : string) (case : string) (impl : string) : verdict =
   | "printer" -> let (model, fails) = Printer_o.eval case impl in { model; fails }
   | "pool" -> let (model, fails) = Pool_o.eval case impl in { model; fails }
   | "modes" -> let (model, fails) = Modes_o.eval case impl in { model; fails }
+  | "modes10" ->
+    (* C10 in every serve mode *)
+    let (model, fails) = Modes_o.eval case impl in
+    { model; fails = List.filter_map (fun (p, k) -> if p = "C17" then Some ("C10", k) else None) fails }
   | "modes09" ->
     (* C09 in every serve mode: the transcripts of the three modes must be the model's *)
     let (model, fails) = Modes_o.eval case impl in
